@@ -42,7 +42,9 @@ RULE = ("case = 1-3 generator bodies (items, records, nested sync/async scopes a
 TRUSTED = ["contextvars semantics (ContextVar.set/reset tokens, one Context per task, async-generator frames run in the "
            "resumer's Context, asyncgen finaliser closes in a new task) as modelled in Haiway/Model/Stream.lean",
            "harness/comp_stream.py run_real + environment-stack monitor"]
-ASSUMPTIONS = ["one consumer task per stream (all __anext__/aclose calls of a stream come from the task that made the first one)",
+ASSUMPTIONS = ["a generator body that iterates a nested ctx.stream does so with a plain `async for` (it does not close the "
+               "inner stream itself), as the repository's own tests do",
+               "one consumer task per stream (all __anext__/aclose calls of a stream come from the task that made the first one)",
                "generator bodies do not catch exceptions and do not await anything but sleep(0)",
                "task-group identity is read from TaskGroupContext._context when that private name exists "
                "(otherwise the group component of the fingerprint is masked on both sides)",
@@ -678,7 +680,7 @@ KNOWN_SIGNATURES = {
     "stream.consumer-metrics.misnested",
     "stream.abandoned.scope-never-completes",
     "stream.unstarted.scope-never-completes",
-    "stream.closed.scope-never-completes",
+    "stream.closed.nested-stream-never-completes",
 }
 
 _MODEL_CACHE: dict[str, str] = {}
@@ -837,8 +839,10 @@ class _SStream:
         return ("stop",)
 
     def has_open_inside(self):
-        """is the body suspended inside a block of its own or a nested stream?"""
-        return len(self.acts) > 1 or any(len(a["scopes"]) > 1 for a in self.acts)
+        """is the body suspended inside a nested stream ("nested") / only inside blocks of its own ("block")?"""
+        if len(self.acts) > 1:
+            return "nested"
+        return "block" if any(len(a["scopes"]) > 1 for a in self.acts) else ""
 
     def end_all(self, finished):
         while self.acts:
@@ -1126,8 +1130,10 @@ def monitor(case: str, out: str) -> list[str]:
                         causes.add("stream.abandoned.scope-never-completes")
                     elif ss.ended_by in ("closed-unstarted", "abandoned-unstarted"):
                         causes.add("stream.unstarted.scope-never-completes")
-                    elif ss.ended_by == "closed" and ss.open_at_close:
-                        causes.add("stream.closed.scope-never-completes")
+                    elif ss.ended_by == "closed" and ss.open_at_close == "nested":
+                        causes.add("stream.closed.nested-stream-never-completes")
+                    elif ss.ended_by == "closed" and ss.open_at_close == "block":
+                        causes.add("stream.closed.scope-never-completes")  # repaired: a regression if it shows again
             if causes:
                 for c in causes:
                     flag(c, first, "events")
@@ -1230,8 +1236,10 @@ def corpus():
         "r5,y1,r6,y2|0:a1 0:m0g0 0:n0 0:a2 0:n0 0:n0 0:x 0:x",                      # record lands in the consumer's scope
         "y1,y2|0:a1 0:m0g0 0:c0 0:p 0:x 0:p",                                        # never started, closed
         "y1,y2|0:a1 0:m0g0 0:z0 0:p 0:x 0:p",                                        # never started, dropped
-        "o5,y1,y2,c|0:a1 0:m0g0 0:n0 0:p 0:c0 0:p 0:x 0:p",                          # closed inside a body block
         "y1,s1,y4;y2,y3|0:a1 0:m0g0 0:n0 0:n0 0:p 0:c0 0:p 0:x 0:p",                # closed inside a nested stream
+        # fixed: closed while the body is suspended inside a block of its own (the wrapper closes the source generator)
+        "o5,y1,y2,c|0:a1 0:m0g0 0:n0 0:p 0:c0 0:p 0:x 0:p",
+        "O5,u6,y1,r3,y2|0:a1 0:m0g0 0:n0 0:c0 0:p 0:x 0:p",
         # what must hold
         "y1,y2,y3|0:a1 0:m0g0 0:n0 0:n0 0:n0 0:n0 0:n0 0:x",                        # items, end, stop again
         "y1,f,y2|0:a1 0:m0g0 0:n0 0:n0 0:n0 0:x",                                    # exception ends the stream
